@@ -17,6 +17,11 @@ EXHAUSTIVE_THOROUGH = [
     "P:0:0 R:0 P:1:0 R:0 D / D D",
 ]
 HAND = [
+    # a result consumed by remove() leaves a stale work() callback; a later piece of another torrent must still be answered
+    ("P:0:0 R:0 D P:1:1 D D / D D", ["000" + "1" * 8 + "0" * 9 + "1" * 8 + "0" * 12 + "01" * 20, "000" + "1" * 8 + "0" * 2 + "01" * 40]),
+    ("P:0:0 R:0 D P:1:1 D D / LOOP", ["000" + "1" * 8 + "0" * 9 + "1" * 10 + "0" * 12 + "01" * 20]),
+    # second push decides should_interrupt while the disk thread drains the queue
+    ("P:0:0 P:1:1 D D / D D", ["000" + "1" * 8 + "0" * 12 + "01" * 20, "000" + "111" + "0" + "1" * 6 + "0" * 8 + "01" * 20]),
     # the disk thread runs its event loop (process_callbacks forever)
     ("P:0:0 R:0 D / LOOP", ["000" + "1111" + "0" * 6 + "1" * 10 + "0" * 10, "0001111" + "01" * 20, "01" * 40]),
     ("P:0:0 P:1:0 D R:0 P:2:1 D R:1 D / LOOP", ["01" * 80, "0011" * 40, "000111" * 25]),
